@@ -16,6 +16,7 @@ import (
 	"vharness/c13"
 	"vharness/c17"
 	"vharness/c18"
+	"vharness/c19"
 	"vharness/c20"
 	"vharness/c14"
 	"vharness/c15"
@@ -47,6 +48,7 @@ func init() {
 	add("c13", c13.Harnesses)
 	add("c17", c17.Harnesses)
 	add("c18", c18.Harnesses)
+	add("c19", c19.Harnesses)
 	add("c20", c20.Harnesses)
 	add("c14", c14.Harnesses)
 	add("c15", c15.Harnesses)
